@@ -456,7 +456,7 @@ extern uint8_t* diplomat_alloc(size_t size, size_t align);
 static char lb_[1 << 16];
 static size_t ln_;
 static unsigned long seq_;
-static void LB(void) { ln_ = 0; lb_[0] = 0; }
+static void LB(void) { static int init_; if (!init_) { setvbuf(stdout, NULL, _IOLBF, 0); init_ = 1; } ln_ = 0; lb_[0] = 0; }
 static void L(const char* fmt, ...) { va_list ap; va_start(ap, fmt); ln_ += (size_t)vsnprintf(lb_ + ln_, sizeof lb_ - ln_, fmt, ap); va_end(ap); }
 void dv_log(const char* kind, const char* f, const char* v) { printf("{\"seq\":%lu,\"ev\":\"%s\",\"f\":\"%s\",\"v\":\"%s\"}\n", ++seq_, kind, f, v); }
 static void LE(const char* kind, const char* f) { dv_log(kind, f, lb_); }
